@@ -321,7 +321,7 @@ func run(c Case) (pbt.Outcome, error) {
 			if closedScope[c.Timers[op.T].Scope] {
 				continue // counters and histogram samples recorded on a closed scope are don't-care (C07); only timers forward immediately
 			}
-			if c.Mode == "test" || c.Mode == "both" {
+			if c.Mode == "both" {
 				continue
 			}
 			name := fmt.Sprintf("hsw%d", oi)
@@ -336,6 +336,28 @@ func run(c Case) (pbt.Outcome, error) {
 			sw.Stop()
 			t3 := time.Now()
 			lo, hi := t2.Sub(t1), t3.Sub(t0)
+			if c.Mode == "test" {
+				// a reporter-less scope: the sample is looked up in the snapshot
+				ms := mscopes[c.Timers[op.T].Scope]
+				hs := ts.Snapshot().Histograms()[tally.KeyForPrefixedStringMap(ms.Metric(name), ms.Tags)]
+				if hs == nil {
+					errs.Addf("op %d: histogram %q of the stopwatch is not in the snapshot", oi, ms.Metric(name))
+					continue
+				}
+				pairs := model.DurationPairs([]time.Duration(hbuckets))
+				bl, bh := model.DurationBucketOf(pairs, lo), model.DurationBucketOf(pairs, hi)
+				var n int64
+				for up, cnt := range hs.Durations() {
+					n += cnt
+					if cnt != 0 && (up < bl || up > bh) {
+						errs.Addf("op %d: histogram stopwatch sample in bucket <=%v, elapsed within [%v,%v]", oi, up, lo, hi)
+					}
+				}
+				if n != 1 {
+					errs.Addf("op %d: histogram stopwatch left %d samples in the snapshot, want one", oi, n)
+				}
+				continue
+			}
 			mark := log.Len()
 			tally.VerifReportOnce(root)
 			var got []rec.Event
@@ -356,9 +378,6 @@ func run(c Case) (pbt.Outcome, error) {
 		case "exec":
 			if closedScope[c.Timers[op.T].Scope] {
 				continue // counters and histogram samples recorded on a closed scope are don't-care (C07); only timers forward immediately
-			}
-			if c.Mode == "test" {
-				continue
 			}
 			name := fmt.Sprintf("call%d", oi)
 			sc := scopes[c.Timers[op.T].Scope]
@@ -389,10 +408,49 @@ func run(c Case) (pbt.Outcome, error) {
 			if op.Fail && err != sentinel || !op.Fail && err != nil {
 				errs.Addf("op %d: Exec returned %v, function returned fail=%v", oi, err, op.Fail)
 			}
-			ev := timerEvents(mark)
 			latName := ms.Sub(name).Metric("latency")
+			if c.Mode == "test" {
+				// a reporter-less scope: latency and counters are looked up in the snapshot
+				snap := ts.Snapshot()
+				lat := snap.Timers()[tally.KeyForPrefixedStringMap(latName, ms.Tags)]
+				if lat == nil || len(lat.Values()) != 1 {
+					errs.Addf("op %d: Exec left %v as latency %q in the snapshot, want one value", oi, lat, latName)
+				} else if d := lat.Values()[0]; d < slept-time.Microsecond || d > t3.Sub(t0) {
+					errs.Addf("op %d: Exec latency %v, want within [%v,%v]", oi, d, slept, t3.Sub(t0))
+				}
+				succ, fail := int64(0), int64(0)
+				for _, e := range snap.Counters() {
+					if e.Name() != ms.Metric(name) {
+						continue
+					}
+					rest := map[string]string{}
+					for k, v := range e.Tags() {
+						if k != "result_type" {
+							rest[k] = v
+						}
+					}
+					if fmt.Sprint(rest) != fmt.Sprint(ms.Tags) {
+						errs.Addf("op %d: call counter with tags %v, scope tags %v", oi, e.Tags(), ms.Tags)
+					}
+					switch e.Tags()["result_type"] {
+					case "success":
+						succ += e.Value()
+					case "error":
+						fail += e.Value()
+					default:
+						errs.Addf("op %d: call counter with tags %v", oi, e.Tags())
+					}
+				}
+				if op.Fail && !(succ == 0 && fail == 1) || !op.Fail && !(succ == 1 && fail == 0) {
+					errs.Addf("op %d: after Exec(fail=%v, error %#v): success=%d error=%d in the snapshot", oi, op.Fail, sentinel, succ, fail)
+				}
+				continue
+			}
+			ev := timerEvents(mark)
 			if len(ev) != 1 {
 				errs.Addf("op %d: Exec recorded %d latencies, want 1", oi, len(ev))
+			} else if fmt.Sprint(ev[0].Tags) != fmt.Sprint(ms.Tags) && !(len(ev[0].Tags) == 0 && len(ms.Tags) == 0) {
+				errs.Addf("op %d: Exec latency delivered with tags %v, scope tags %v", oi, ev[0].Tags, ms.Tags)
 			} else if d := time.Duration(ev[0].I); ev[0].Name != latName || d < slept-time.Microsecond || d > t3.Sub(t0) {
 				errs.Addf("op %d: Exec latency %v under %q, want within [%v,%v] under %q", oi, d, ev[0].Name, slept, t3.Sub(t0), latName)
 			}
@@ -447,7 +505,7 @@ func run(c Case) (pbt.Outcome, error) {
 func TestC10(t *testing.T) {
 	pbt.Main(t, pbt.Prop[Case]{
 		ID: "C10", Name: "timers",
-		Rule: "(histories also Close the subscope of a timer and keep recording through old handles and through handles obtained from the closed scope afterwards: still exactly one delivery per Record) rapid-generated histories (1..16 ops) over 1..4 timers in 1..3 derived scopes: Record(d) with int64-extreme/zero/negative durations, report passes, timer stopwatches and duration-histogram stopwatches with 0..1.5 ms pauses (rationed), instrument.Call.Exec with succeeding/failing functions; plain reporter, cached reporter, both configured at once, or a reporter-less test scope. Oracle: exactly one timer delivery inside each Record call with d, name, tags (through the handle when cached); passes deliver no timers; snapshot shows all values in order; stopwatch value bracketed by harness monotonic clock readings taken around Start/Stop; Exec: one call, same error, one latency, exactly one of success/error +1. Non-trivial: >=2 distinct timers used and a report pass between records (or snapshot mode). Distinct: FNV-64 of the case JSON.",
+		Rule: "(histories also Close the subscope of a timer and keep recording through old handles and through handles obtained from the closed scope afterwards: still exactly one delivery per Record) rapid-generated histories (1..16 ops) over 1..4 timers in 1..3 derived scopes: Record(d) with int64-extreme/zero/negative durations, report passes, timer stopwatches and duration-histogram stopwatches with 0..1.5 ms pauses (rationed), instrument.Call.Exec with succeeding/failing functions; plain reporter, cached reporter, both configured at once, or a reporter-less test scope. Oracle: exactly one timer delivery inside each Record call with d, name, tags (through the handle when cached); passes deliver no timers; snapshot shows all values in order; stopwatch value bracketed by harness monotonic clock readings taken around Start/Stop; Exec: one call, same error, one latency with the scope's name and tags, exactly one of success/error +1 (on a test scope both stopwatch flavours and Exec are read from the snapshot). Non-trivial: >=2 distinct timers used and a report pass between records (or snapshot mode). Distinct: FNV-64 of the case JSON.",
 		Gen:  gen, Run: run, HangAfter: 20 * time.Second,
 	})
 }
